@@ -321,6 +321,10 @@ func (w *algWorld) Exec(p *Plan, st *RunStats) *Violation {
 			break
 		}
 	}
+	if !o.Failed() && p.Cfg.Kind == "treeset" && p.Cfg.MapSeed%4 == 2 {
+		probe := Op{ID: -1, N: "PointerElementsWithDereferencingComparator"}
+		safely(o, probe, func() { o.cur = probe; pointerElementsProbe(o, "C13", "treeset", int(p.Cfg.MapSeed>>36)) })
+	}
 	st.Steps = stepCount - start
 	st.NonTrivial = nonEmpty >= 1
 	st.Unjudged = o.Unj
